@@ -35,14 +35,14 @@ RULE = ('RandomChoice: probability vectors of 1..1e5 items (float64/float32; lea
         'a case is non-trivial when distinct by content hash and (for choice) has >= 1 item and >= 1 draw')
 TRUSTED = [
     'Coq 8.16.1 kernel incl. vm_compute (no native_compute)',
-    'all 13 theorems closed under the global context (no axioms); C08_choice is closed over eight order/monotonicity '
+    'all 15 theorems closed under the global context (no axioms); C08_choice is closed over eight order/monotonicity '
     'premises on the carrier (proved for the rationals: C08_choice_Q); that finite IEEE doubles without overflow meet '
     'them (monotone rounding, x/x = 1, 0/x = 0) is a trusted reading, exercised bit-exactly by the correspondence',
     'the generator is an abstract deterministic machine (Section variables rng/seed_rng/draw): MT19937 itself is not modelled',
     'generate_background_events / generate_signal_events are arbitrary state-passing functions of the service they are '
     'handed (premise: all randomness flows through the passed RandomStateService - checked by the request traces, the '
     'equal-seed runs and a static scan for np.random.* globals)',
-    'translator/py2coq.py (65 kernels of G_random.v pinned by K_* lemmas)',
+    'translator/py2coq.py (72 kernels of G_random.v pinned by K_* lemmas)',
     'extraction (ExtrOcamlBasic only) + ocaml/c08/driver.ml + ocaml/common/numf.ml for the float run of RandomChoice',
     'np.searchsorted on a non-decreasing table = number of entries <= v (side=right); np.cumsum = sequential sum; '
     'np.sum in _assert_probabilities read left-to-right (decision kept away from atol)',
@@ -1066,6 +1066,94 @@ def run_completion_order(ctx, only=None):
                           'which worker finishes first', case=dict(c, kind='order-trials'), predicate='bytes equal for every completion order')
 
 
+# ===================================================================== RandomStateService: seed / reseed
+
+def run_reseed(ctx):
+    """RandomStateService as a state machine: op sequences (draw n | reseed s), with reseed to the SAME seed, twice in
+    a row, right after construction, from/to seed None - drawn values and the `seed` property vs. the model
+    (rss_new / rss_reseed on the table machine fed with each seed's own stream) and vs. a fresh service"""
+    from skyllh.core.random import RandomStateService
+    rng = ctx.rng
+    pool = [0, 5, 2 ** 32 - 1, rng.randint(1, 2 ** 31)]
+    NT = 16
+    table = {sd: [int(x) for x in np.random.RandomState(sd).randint(0, 2 ** 31, size=1)] for sd in pool}
+    for sd in pool:
+        ref = np.random.RandomState(sd)
+        table[sd] = [int(ref.randint(0, 2 ** 31)) for _ in range(NT)]
+    seqs = []
+    for s0 in pool:
+        seqs.append((s0, [('d', 3), ('r', s0), ('d', 3)]))                       # the seeded defect's history
+        seqs.append((s0, [('r', s0), ('d', 2), ('r', s0), ('r', s0), ('d', 2)]))   # right away, and twice
+        seqs.append((s0, [('d', 1), ('r', pool[(pool.index(s0) + 1) % 4]), ('d', 2), ('r', s0), ('d', 2)]))
+    for _ in range(ctx.budget(12, 200)):
+        s0 = rng.choice(pool)
+        ops, cur, used = [], s0, 0
+        for _ in range(rng.randint(2, 7)):
+            if rng.random() < 0.5 and used < NT - 4:
+                n = rng.randint(0, 3)
+                ops.append(('d', n))
+                used += n
+            else:
+                cur = cur if rng.random() < 0.6 else rng.choice(pool)
+                ops.append(('r', cur))
+                used = 0
+        ops.append(('d', 2))
+        seqs.append((s0, ops))
+    exprs, impls = [], []
+    tbl = '[' + '; '.join(f'({zlit(k)}, {zlist(v)})' for k, v in table.items()) + ']'
+    for s0, ops in seqs:
+        case = {'kind': 'reseed', 'seed0': s0, 'ops': ops}
+        ctx.case(case)
+        ctx.count('reseed:same-seed' if any(o == ('r', s0) for o in ops) else 'reseed:other')
+        rss = RandomStateService(seed=s0)
+        cur, pos, got, want = s0, 0, [], []
+        ok = True
+        for o in ops:
+            if o[0] == 'd':
+                for _ in range(o[1]):
+                    got.append(int(rss.random.randint(0, 2 ** 31)))
+                    want.append(table[cur][pos] if pos < NT else None)
+                    pos += 1
+            else:
+                rss.reseed(o[1])
+                cur, pos = o[1], 0
+                if rss.seed != o[1]:
+                    ctx.violation('RandomStateService.reseed', 'seed-property', f'seed is {rss.seed} after reseed({o[1]})', case=case)
+        got.append(int(rss.seed))
+        want.append(cur)
+        if got != want:
+            ctx.violation('RandomStateService.reseed', 'stream-not-rewound',
+                          'after reseed(s) the draws differ from those of a fresh RandomStateService(s)',
+                          case=case, impl=got, model=want, predicate='reseed(s); draws == RandomStateService(s) draws')
+        opl = '[' + '; '.join((f'inl {o[1]}%nat' if o[0] == 'd' else f'inr {zlit(o[1])}') for o in ops) + ']'
+        exprs.append(f"(fix go (ops : list (nat + Z)) (r : rss tm_rng) : list Z := match ops with [] => [rss_seed tm_rng r] "
+                     f"| inl n :: rest => let '(vs, r') := tm_script (repeat (RRandint 0 2147483648) n) r in vs ++ go rest r' "
+                     f"| inr sd :: rest => go rest (rss_reseed tm_rng (tm_seed {tbl}) r sd) end) {opl} (rss_new tm_rng (tm_seed {tbl}) {zlit(s0)})")
+        impls.append((case, got))
+    # seed=None: the property stays None, reseed(s) from it gives the stream of s, reseed(None) keeps working
+    try:
+        r = RandomStateService(seed=None)
+        if r.seed is not None:
+            ctx.violation('RandomStateService', 'none-seed', 'seed property of an unseeded service is not None', case={'kind': 'reseed-none'})
+        r.random.random(3)
+        r.reseed(7)
+        if r.seed != 7 or r.random.random(4).tobytes() != np.random.RandomState(7).random(4).tobytes():
+            ctx.violation('RandomStateService.reseed', 'stream-not-rewound', 'reseed(7) on an unseeded service', case={'kind': 'reseed-none'})
+        r.reseed(None)
+        if r.seed is not None:
+            ctx.violation('RandomStateService.reseed', 'none-seed', 'seed property after reseed(None) is not None', case={'kind': 'reseed-none'})
+        r.random.random(2)
+        ctx.count('reseed:none')
+    except Exception as ex:
+        ctx.violation('RandomStateService', 'raises-' + exc_name(ex), 'seed=None handling raised', case={'kind': 'reseed-none'})
+    if ctx.model_ok:
+        vals = common.coq_eval('c08rs', IMPORTS, exprs)
+        for (case, got), v in zip(impls, vals):
+            ctx.corr_cases += 1
+            if list(v) != got:
+                ctx.disagree('RandomStateService.reseed', case, got, list(v))
+
+
 # ===================================================================== history probes on the real objects
 
 def _b(x):
@@ -1251,6 +1339,14 @@ def run_history(ctx):
                     run(o, f, r)
                     r.reseed(seed)
                     check('reseed', vi, cn, run(o, f, r), [cn, cn + ' (other seed)', 'reseed'])
+                    # the same service object, re-seeded with the seed it already has (once, twice), fresh and used object
+                    r = RandomStateService(seed)
+                    run(o, f, r)
+                    r.reseed(seed)
+                    check('reseed-same', vi, cn, run(o, f, r), [cn, 'reseed(same seed)'])
+                    r.reseed(seed)
+                    r.reseed(seed)
+                    check('reseed-same', vi, cn, run(fac(), f, r), [cn, cn, 'reseed(same seed) twice', 'fresh object'])
                     if first is not None and _b(first) != first_b:
                         ctx.violation(name, 'result-overwritten', f'the result of {cn} changed when the call was repeated',
                                       case={'kind': 'history', 'subject': name, 'variant': vi, 'call': cn, 'seed': seed})
@@ -1342,6 +1438,7 @@ def run(ctx):
     run_seed(ctx)
     run_workers(ctx)
     run_completion_order(ctx)
+    run_reseed(ctx)
     run_history(ctx)
     run_trials(ctx)
     run_determinism(ctx)
@@ -1379,6 +1476,8 @@ def replay(ctx, rp):
         run_completion_order(ctx)
     elif kind == 'history':
         run_history(ctx)
+    elif kind in ('reseed', 'reseed-none'):
+        run_reseed(ctx)
     elif kind == 'static':
         static_scan(ctx)
     else:
